@@ -282,6 +282,143 @@ func c05Big(count, pageSize int, omitLink bool) string {
 	return "big ok"
 }
 
+
+// c05Refs: `ls refs <stack> <n> <k|-> <page size> <salt>`: n manifests that name one subject are stored (split over the
+// members when the stack unifies, every third one in both), and Referrers(subject) is listed through the stack by a
+// consumer that declines at its k-th item. Expected (computed here from what was pushed, not from any listing): every
+// referrer exactly once, ascending by digest, cut at k; then no further call.
+func c05RefsParse(l string) (stack []string, n, k, ps int, salt string, ok bool) {
+	t := strings.Split(l, " ")
+	if len(t) != 7 || t[0] != "ls" || t[1] != "refs" {
+		return nil, 0, 0, 0, "", false
+	}
+	stack = strings.Split(t[2], "+")
+	n, _ = strconv.Atoi(t[3])
+	k = -1
+	if t[4] != "-" {
+		k, _ = strconv.Atoi(t[4])
+	}
+	ps, _ = strconv.Atoi(t[5])
+	return stack, n, k, ps, t[6], true
+}
+
+const c05Idx = "application/vnd.oci.image.index.v1+json"
+
+func c05RefsSubject(salt string) ociregistry.Descriptor {
+	b := []byte("subject " + salt)
+	return ociregistry.Descriptor{MediaType: c05Idx, Digest: ociregistry.Digest(sha256Digest(b)), Size: int64(len(b))}
+}
+
+func c05Referrer(salt string, i int) []byte {
+	sd := c05RefsSubject(salt)
+	return []byte(fmt.Sprintf(`{"schemaVersion":2,"mediaType":%q,"manifests":[],"subject":{"mediaType":%q,"digest":%q,"size":%d},"annotations":{"i":"%d"}}`,
+		c05Idx, sd.MediaType, sd.Digest, sd.Size, i))
+}
+
+func c05RefsExpected(n, k int, salt string) string {
+	var ds []string
+	for i := 0; i < n; i++ {
+		b := c05Referrer(salt, i)
+		ds = append(ds, fmt.Sprintf("%s:%d", sha256Digest(b), len(b)))
+	}
+	sort.Strings(ds)
+	end, calls := "done", len(ds)
+	if k >= 0 && len(ds) >= k {
+		if k == 0 {
+			k = 1 // a consumer can decline only when called
+		}
+		ds, end, calls = ds[:k], "stopped", k
+	}
+	return fmt.Sprintf("refs [%s] end=%s calls=%d", strings.Join(ds, " "), end, calls)
+}
+
+func c05Refs(stack []string, n, k, ps int, salt string) string {
+	ctx := context.Background()
+	prefix := ""
+	unify := false
+	for _, layer := range stack {
+		if layer == "sub" {
+			prefix = "p/"
+		}
+		if layer == "unify" {
+			unify = true
+		}
+	}
+	repo := prefix + c05Repo
+	mk := func(which int) ociregistry.Interface {
+		m := ocimem.New()
+		blob := []byte("b")
+		m.PushBlob(ctx, repo, ociregistry.Descriptor{MediaType: "application/octet-stream", Digest: ociregistry.Digest(sha256Digest(blob)), Size: 1}, bytes.NewReader(blob))
+		m.PushBlob(ctx, "other/repo", ociregistry.Descriptor{MediaType: "application/octet-stream", Digest: ociregistry.Digest(sha256Digest(blob)), Size: 1}, bytes.NewReader(blob))
+		// a referrer of the same subject in ANOTHER repository, and a manifest naming another subject: neither is listed
+		m.PushManifest(ctx, "other/repo", "", c05Referrer(salt, n+7), c05Idx)
+		m.PushManifest(ctx, repo, "", c05Referrer(salt+"-other", 0), c05Idx)
+		for i := 0; i < n; i++ {
+			if which == 0 || i%3 == 2 || i%3 == which-1 {
+				if _, err := m.PushManifest(ctx, repo, "", c05Referrer(salt, i), c05Idx); err != nil {
+					panic(fmt.Sprintf("populate referrer %d: %v", i, err))
+				}
+			}
+		}
+		return m
+	}
+	var reg ociregistry.Interface
+	if unify {
+		reg = ociunify.New(mk(1), mk(2), nil)
+	} else {
+		reg = mk(0)
+	}
+	var closers []func()
+	defer func() {
+		for i := len(closers) - 1; i >= 0; i-- {
+			closers[i]()
+		}
+	}()
+	for _, layer := range stack {
+		switch layer {
+		case "debug":
+			reg = ocidebug.New(reg, func(string, ...any) {})
+		case "select":
+			reg = ocifilter.Select(reg, func(repo string) bool { return !c05Hidden(repo) })
+		case "sub":
+			reg = ocifilter.Sub(reg, "p")
+		case "wire":
+			ch := newChain(reg, 1, &ociserver.Options{}, &ociclient.Options{ListPageSize: ps})
+			closers = append(closers, ch.Close)
+			reg = ch.regs[1]
+		}
+	}
+	var got []string
+	calls, end := 0, "done"
+	declined := false
+	reg.Referrers(ctx, c05Repo, c05RefsSubject(salt).Digest, "")(func(d ociregistry.Descriptor, err error) bool {
+		calls++
+		if declined {
+			end = "called-after-decline"
+			return false
+		}
+		if end == "error" {
+			end = "called-after-error"
+			return false
+		}
+		if err != nil {
+			end = "error:" + errClass(err)
+			return false
+		}
+		got = append(got, fmt.Sprintf("%s:%d", d.Digest, d.Size))
+		if k >= 0 && len(got) >= k {
+			declined = true
+			end = "stopped"
+			return false
+		}
+		return true
+	})
+	if strings.HasPrefix(end, "error") && end != "error" {
+		// canonical: keep the class, and the later guard above compares with "error"
+	}
+	return fmt.Sprintf("refs [%s] end=%s calls=%d", strings.Join(got, " "), end, calls)
+}
+
 func (*c05) Impl(c Case) []string {
 	out := make([]string, len(c.Lines))
 	for i, l := range c.Lines {
@@ -294,6 +431,9 @@ func (*c05) Impl(c Case) []string {
 			if t := strings.Split(l, " "); len(t) == 4 && t[0] == "ls" && t[1] == "held" {
 				n, _ := strconv.Atoi(t[3])
 				return c05Held(t[2], n)
+			}
+			if stack, n, k, ps, salt, ok := c05RefsParse(l); ok {
+				return c05Refs(stack, n, k, ps, salt)
 			}
 			s, ok := parseC05(l)
 			if !ok {
@@ -497,6 +637,19 @@ func (*c05) Gen(rng *RNG, tier string) []Case {
 	if tier == "thorough" {
 		n = 12000
 	}
+	// referrers through the same stacks (no start point, no paging parameter in this API: a listing is one index document)
+	for i := 0; i < n/7; i++ {
+		stack := pick(rng, stacks)
+		if strings.Contains(stack, "unifyerr") || strings.Contains(stack, "unifynf") {
+			continue
+		}
+		cnt := pick(rng, []int{0, 1, 2, 3, 5, 8, 13, 40})
+		k := "-"
+		if rng.Chance(1, 3) {
+			k = strconv.Itoa(1 + rng.Intn(cnt+2))
+		}
+		cases = append(cases, Case{Tag: "refs", Lines: []string{fmt.Sprintf("ls refs %s %d %s %d s%d", stack, cnt, k, pick(rng, []int{0, 1, 3, 1000}), rng.Intn(1000))}})
+	}
 	for i := 0; i < n; i++ {
 		what := pick(rng, []string{"repos", "tags"})
 		stack := pick(rng, stacks)
@@ -581,6 +734,18 @@ func (*c05) Oracle(c Case, impl []string) []Failure {
 			}
 			continue
 		}
+		if _, n, k, _, salt, ok := c05RefsParse(l); ok {
+			if want := c05RefsExpected(n, k, salt); impl[i] != want {
+				class := "list-referrers-differs"
+				if impl[i] == "panic" {
+					class = "list-panic"
+				} else if strings.Contains(impl[i], "called-after") {
+					class = "list-consumer-protocol"
+				}
+				fs = append(fs, Failure{Class: class, Oracle: "referrers_listing_spec", Index: i, Expected: want, Observed: impl[i]})
+			}
+			continue
+		}
 		s, ok := parseC05(l)
 		if !ok {
 			continue
@@ -628,6 +793,9 @@ func (*c05) Oracle(c Case, impl []string) []Failure {
 }
 
 func (*c05) NonTrivial(c Case, impl []string) (bool, string) {
+	if stack, n, _, _, _, ok := c05RefsParse(c.Lines[0]); ok {
+		return n > 0, "refs:" + strings.Join(stack, "+")
+	}
 	s, _ := parseC05(c.Lines[0])
 	return len(s.items) > 0, s.what + ":" + strings.Join(s.stack, "+")
 }
